@@ -3,7 +3,7 @@
    The model is of OffsetCommit WITH fixes/C13-commit-under-lock.patch (check and store
    write in one critical section, so every operation is atomic and schedules are
    operation sequences). *)
-From KS Require Import lib.Base model.Coordinator model.CoordinatorFaults proofs.CoordinatorBase proofs.CoordinatorProofs proofs.CoordinatorFaults.
+From KS Require Import lib.Base model.Coordinator model.CoordinatorFaults proofs.CoordinatorBase proofs.CoordinatorProofs proofs.CoordinatorFaults model.CoordinatorCluster proofs.CoordinatorCluster.
 Open Scope Z_scope.
 
 (* (1) in ANY state: a sync, heartbeat or offset commit whose (member, generation) is not
@@ -64,6 +64,35 @@ Theorem C13_generation_monotone_in_memory_under_store_faults : forall E h o f g 
   s_mem (runf E h) = Some g -> s_mem (fst (stepf E (runf E h) o f)) = Some g' -> g_gen g <= g_gen g'.
 Proof. intros E h o f g g'. apply c13f_generation_monotone_in_memory. apply runf_inv2. Qed.
 Print Assumptions C13_generation_monotone_in_memory_under_store_faults.
+
+(* ---- several brokers (model/CoordinatorCluster.v: the routing rule of cmd/broker) ----
+   Named assumption LEASE_SINGLE_OWNER: at any time at most one broker holds the group's
+   coordination lease (property C18 of the etcd lease manager; in the model it is the
+   shape of the state, [cl_owner : option nat]). Routing rule, checked on the real
+   handlers by the second harness: lease not held (and held elsewhere) -> NOT_COORDINATOR
+   and no effect; lease newly acquired -> the cached copy is dropped first
+   (fixes/C13-group-cache-follows-lease.patch); sweeps of non-holders have no effect. *)
+
+(* (4) whatever requests reach whichever broker, however often the lease moves: the group
+       as the lease holder has it is a state of ONE coordinator running a history in which
+       every lease move is a Failover -- so every single-coordinator theorem of C12-C15
+       and C43 (all are over histories with failovers) holds for the cluster *)
+Theorem C13_cluster_is_one_coordinator : forall E evs, exists h, holder_view (crun E evs) = run E h.
+Proof. exact crun_refines. Qed.
+Print Assumptions C13_cluster_is_one_coordinator.
+
+(* (5) fencing for any number of brokers with caches: in ANY cluster state, a sync /
+       heartbeat / commit that is not from (a current member, the current generation) of the
+       group as the lease holder has it, sent to ANY broker, is answered NOT_COORDINATOR
+       (changing nothing at all) or with an error, and changes no committed offset *)
+Theorem C13_fenced_any_broker : forall E c b o mid gen now,
+  (o = Sync mid gen now \/ o = Heartbeat mid gen now \/ exists t p off, o = Commit mid gen t p off now) ->
+  ~ current (holder_view c) now mid gen ->
+  let '(c', r) := cstep E c (CReq b o) in
+  (r = CNotCoordinator \/ exists r0, r = CReply r0 /\ reply_err r0 <> NONE) /\
+  cl_off c' = cl_off c /\ (r = CNotCoordinator -> c' = c).
+Proof. exact c13_fenced_any_broker. Qed.
+Print Assumptions C13_fenced_any_broker.
 
 (* non-vacuity: an expired member's commit / heartbeat / sync with its old generation is
    rejected and the offset stays; the surviving member's commit lands *)
